@@ -39,6 +39,8 @@ class Scratch:
         assert r.returncode == 0, r.stderr
         if self.patch:
             r = sh(f'git -C {self.wt} apply {self.patch}')
+            if r.returncode != 0:  # the repository moved on (a later fix: commit touched the same lines): three-way merge
+                r = sh(f'git -C {self.wt} apply -3 {self.patch}')
             assert r.returncode == 0, 'patch does not apply: ' + r.stderr
         return self.wt
 
